@@ -215,3 +215,59 @@ func VerifH_C03_sequence_border() {
 		verifAssert(vhSameValue(t.Get(IntValue(int64(i))), IntValue(int64(i))), "sequence-intact")
 	}
 }
+
+// H2: traversal with next while existing fields are cleared or re-assigned
+// (allowed by the manual): every key present at the start and not cleared
+// before being reached is visited exactly once; next never rejects the key it
+// just returned.
+func VerifH_C03_traversal_with_updates() {
+	n := verifChoose("n", 4) + 1 // 1..4 array entries
+	t := NewTable()
+	for i := 1; i <= n; i++ {
+		t.Set(IntValue(int64(i)), IntValue(int64(10*i)))
+	}
+	hashKeys := verifChoose("hashkeys", 3) // 0..2 extra keys in the hash part
+	if hashKeys >= 1 {
+		t.Set(StringValue("x"), IntValue(1000))
+	}
+	if hashKeys >= 2 {
+		t.Set(FloatValue(0.5), IntValue(2000))
+	}
+	total := n + hashKeys
+	var seenInt [6]bool
+	seenX, seenHalf := false, false
+	visited := 0
+	k := NilValue
+	for step := 0; step <= total+1; step++ {
+		nk, v, ok := t.Next(k)
+		verifAssert(ok, "next-accepts-the-key-it-returned")
+		if !ok {
+			return
+		}
+		if nk.IsNil() {
+			break
+		}
+		visited++
+		verifAssert(!v.IsNil(), "visited-key-has-a-value")
+		if i, isInt := nk.TryInt(); isInt {
+			verifAssert(i >= 1 && i <= int64(n) && !seenInt[i], "int-key-visited-once")
+			if i >= 1 && i <= int64(n) {
+				seenInt[i] = true
+			}
+		} else if s, isStr := nk.TryString(); isStr {
+			verifAssert(s == "x" && !seenX, "string-key-visited-once")
+			seenX = true
+		} else {
+			verifAssert(!seenHalf, "float-key-visited-once")
+			seenHalf = true
+		}
+		switch verifChoose("update", 3) {
+		case 1:
+			t.Set(nk, NilValue) // clear the field just visited
+		case 2:
+			t.Set(nk, IntValue(7)) // assign to an existing field
+		}
+		k = nk
+	}
+	verifAssert(visited == total, "every-key-visited-exactly-once")
+}
